@@ -7,7 +7,7 @@ use crate::exec;
 use crate::framework::{Ctx, Tier};
 use crate::model::*;
 use crate::mutate;
-use crate::ops::{self, build_core, keypair, CacheMode, Op, Sut};
+use crate::ops::{self, build_core, keypair, CacheMode, Op};
 use crate::repl::{self, apply_proof, create_proof, Pair, Plan};
 use crate::rng::Rng;
 use crate::world::World;
